@@ -16,6 +16,24 @@ class LoopStepLimit(Exception):
     pass
 
 
+class SimTimerHandle(asyncio.TimerHandle):
+    """Timers due at the same instant fire in creation order (asyncio leaves
+    ties to the heap)."""
+    __slots__ = ('_seq',)
+
+    def __lt__(self, other):
+        return (self._when, self._seq) < (other._when, other._seq)
+
+    def __le__(self, other):
+        return (self._when, self._seq) <= (other._when, other._seq)
+
+    def __gt__(self, other):
+        return (self._when, self._seq) > (other._when, other._seq)
+
+    def __ge__(self, other):
+        return (self._when, self._seq) >= (other._when, other._seq)
+
+
 class _NoSelector:
     def close(self):
         pass
@@ -28,6 +46,7 @@ class SimLoop(asyncio.base_events.BaseEventLoop):
         self._clock_resolution = 1e-6
         self._selector = _NoSelector()
         self.steps = 0
+        self._timer_seq = 0
         self.exc_log = []
         self.set_exception_handler(self._on_exception)
         # wake-ups requested by non-loop code (not used: single thread)
@@ -35,6 +54,17 @@ class SimLoop(asyncio.base_events.BaseEventLoop):
     # -- clock -----------------------------------------------------------
     def time(self):
         return self._vt
+
+    def call_at(self, when, callback, *args, context=None):
+        if when is None:
+            raise TypeError('when cannot be None')
+        self._check_closed()
+        timer = SimTimerHandle(when, callback, args, self, context)
+        self._timer_seq += 1
+        timer._seq = self._timer_seq
+        heapq.heappush(self._scheduled, timer)
+        timer._scheduled = True
+        return timer
 
     # -- the parts BaseEventLoop leaves abstract -------------------------------
     def _process_events(self, event_list):
